@@ -461,6 +461,12 @@ pub fn supervise(args: &Args) -> i32 {
         }
     }
     let mut confirmed: Vec<(Violation, String)> = vec![];
+    // Re-execution is done for the earliest (smallest) cases first and for at most MAX_CONFIRM distinct
+    // signatures; one defect usually shows under many signatures (one per construction path and accessor) and
+    // every one of them would otherwise cost two to four fresh processes.
+    const MAX_CONFIRM: usize = 4;
+    new_violations.sort_by_key(|v| (v.site == "process", v.space_ordinal, v.case));
+    let skipped: Vec<Violation> = if new_violations.len() > MAX_CONFIRM { new_violations.split_off(MAX_CONFIRM) } else { vec![] };
     for v in &new_violations {
         if v.site == "process" {
             confirmed.push((v.clone(), write_replay(args, v)));
@@ -625,6 +631,12 @@ pub fn supervise(args: &Args) -> i32 {
         for (v, path) in &confirmed {
             println!("VIOLATION property={} replay={}", args.id, path);
             println!("  site={} signature={} occurrences={} first_case={}:{}", v.site, v.signature, v.count, v.space, v.case);
+        }
+        if !skipped.is_empty() {
+            println!("  ... and {} further signature(s) of violations in this run that were not individually re-executed:", skipped.len());
+            for v in skipped.iter().take(12) {
+                println!("      site={} signature={} occurrences={} first_case={}:{}", v.site, v.signature, v.count, v.space, v.case);
+            }
         }
         1
     }
